@@ -7,6 +7,7 @@ import (
 	"path/filepath"
 	"sort"
 	"strings"
+	"time"
 )
 
 var repoRoot = "/repo"
@@ -75,6 +76,12 @@ func cmdFunc(args []string) {
 	if *name == "" {
 		names = sortedKeys(e.spec.Funcs)
 	}
+	if *name == "package" {
+		res := e.PackageScans()
+		e.DischargeAll(res, nil, 4)
+		summarize(res, true)
+		return
+	}
 	for _, n := range names {
 		fs := e.spec.Funcs[n]
 		if fs == nil || fs.Trusted || e.funcs[n] == nil {
@@ -83,12 +90,15 @@ func cmdFunc(args []string) {
 			}
 			continue
 		}
+		t0 := time.Now()
 		res, err := e.VerifyFunc(n)
 		if err != nil {
 			fmt.Println("ERROR", n, err)
 			continue
 		}
+		t1 := time.Now()
 		e.DischargeAll(res, res.Axioms, 16)
+		fmt.Printf("  [exec %.1fs, discharge %.1fs]\n", t1.Sub(t0).Seconds(), time.Since(t1).Seconds())
 		summarize(res, *verbose)
 	}
 	fmt.Println("queries in", e.outDir)
